@@ -98,6 +98,24 @@ pub struct AgentFlags {
     pub cascade_value: bool,
     /// on_update(m0) updates mt with the same key and value + CASCADE_OFFSET.
     pub cascade_map: bool,
+    /// When non-zero, on_set(v0) / on_set(v1) fail with a (non-fatal) effect error after recording the event
+    /// for every value with `v.rem_euclid(fail_set_mod) == 1`. A lane change that arrives as a command is
+    /// then merely logged by the agent ("rejected by the item") and the agent keeps running.
+    #[serde(default)]
+    pub fail_set_mod: u8,
+}
+
+#[derive(Debug)]
+pub struct SetFailure;
+impl std::fmt::Display for SetFailure {
+    fn fmt(&self, f: &mut std::fmt::Formatter<'_>) -> std::fmt::Result {
+        write!(f, "on_set failed on purpose")
+    }
+}
+impl std::error::Error for SetFailure {}
+
+pub fn set_fails(flags: &AgentFlags, v: i64) -> bool {
+    flags.fail_set_mod != 0 && v.rem_euclid(flags.fail_set_mod as i64) == 1
 }
 
 pub struct Shared {
@@ -223,7 +241,17 @@ impl SimLifecycle {
     fn v0_set(&self, context: Ctx, value: &i64, prev: Option<i64>) -> impl EventHandler<SimAgent> {
         let sh = self.shared.clone();
         let v = *value;
-        context.effect(move || sh.rec(Ev::Set { lane: 0, prev, v }))
+        let fails = set_fails(&sh.flags, v);
+        context
+            .effect(move || sh.rec(Ev::Set { lane: 0, prev, v }))
+            .followed_by(
+                if fails {
+                    Some(context.fail::<(), SetFailure>(SetFailure))
+                } else {
+                    None
+                }
+                .discard(),
+            )
     }
 
     #[on_event(v1)]
@@ -237,7 +265,17 @@ impl SimLifecycle {
     fn v1_set(&self, context: Ctx, value: &i64, prev: Option<i64>) -> impl EventHandler<SimAgent> {
         let sh = self.shared.clone();
         let v = *value;
-        context.effect(move || sh.rec(Ev::Set { lane: 1, prev, v }))
+        let fails = set_fails(&sh.flags, v);
+        context
+            .effect(move || sh.rec(Ev::Set { lane: 1, prev, v }))
+            .followed_by(
+                if fails {
+                    Some(context.fail::<(), SetFailure>(SetFailure))
+                } else {
+                    None
+                }
+                .discard(),
+            )
     }
 
     #[on_event(vt_field)]
